@@ -105,6 +105,7 @@ class Flags(object):
         self.max_fail_depth = 0         # deepest fan-out nesting level at which a branch failed
         self.fanout_handled = 0         # fan-out failures that were then retried or caught by the fan-out state
         self.marker_value = False       # a branch output equals an in-band marker string
+        self.handled_tie = False        # simultaneous branch failures under a fan-out with its own Retry/Catch
         self.notes = []
 
     def as_dict(self):
@@ -670,7 +671,7 @@ class Interp(object):
             branches = []
             for bi, b in enumerate(st["Branches"]):
                 branches.append(self.run_branch(b, copy.deepcopy(eff), t, (name, bi)))
-            results, t_join = self.join(name, branches, t)
+            results, t_join = self.join(name, branches, t, bool(st.get('Retry') or st.get('Catch')))
             return self.finish_fanout(name, st, raw, results, t_join, c), t_join
         if typ == "Map":
             eff = select(raw, c, st.get("InputPath", "$"), self.flags)
@@ -693,7 +694,7 @@ class Interp(object):
                     if inp is None:
                         self.flags.null_document = True
                     batch.append(self.run_branch(proc, inp, tcur, (name, j)))
-                res, tcur = self.join(name, batch, tcur)
+                res, tcur = self.join(name, batch, tcur, bool(st.get('Retry') or st.get('Catch')))
                 results.extend(res)
                 i += mc
             return self.finish_fanout(name, st, raw, results, tcur, c), tcur
@@ -713,7 +714,7 @@ class Interp(object):
             self.flags.max_fail_depth = max(self.flags.max_fail_depth, len(prev) + 1)
         return b
 
-    def join(self, name, branches, t):
+    def join(self, name, branches, t, handled=False):
         fails = [b for b in branches if not b.ok]
         if fails:
             tmin = min(b.t for b in fails)
@@ -726,6 +727,14 @@ class Interp(object):
             if len(fails) > 1:
                 self.flags.tie = True
             e = StateError(tuple(first[0].err.names) if len(fails) == 1 else tuple(names), first[0].err.cause)
+            if handled and len(fails) > 1:
+                # what the fan-out's own Retry/Catch does depends on WHICH failure it sees: under the canonical
+                # schedule that is the strictly earliest one (the later ones are cancelled before they happen);
+                # several failures at the same instant leave it open
+                if len(first) == 1:
+                    e = StateError(tuple(first[0].err.names), first[0].err.cause)
+                else:
+                    self.flags.handled_tie = True
             if e.names[0] == "States.ExecutionTimeout" and len(fails) > 1:
                 pass
             e.t = tmin
@@ -753,11 +762,19 @@ class Interp(object):
 
     def exec_task(self, name, st, raw, t, attempt, c):
         res = st.get("Resource", "")
-        if not res.startswith("arn:aws:rpcmessage:local::function:"):
+        long_form = res in ("arn:aws:states:local::rpcmessage:invoke", "arn:aws:states:::rpcmessage:invoke")
+        if not long_form and not res.startswith("arn:aws:rpcmessage:local::function:"):
             raise ModelUnsupported("task resource %r" % res)
         fn = res.rsplit(":", 1)[1]
         eff = select(raw, c, st.get("InputPath", "$"), self.flags)
         eff = template(st.get("Parameters"), eff, c, self.flags) if "Parameters" in st else eff
+        if long_form:
+            # "arn:aws:states:::rpcmessage:invoke": the function is named by Parameters.FunctionName, its arguments
+            # are Parameters.Payload (default {}), and the result comes wrapped in invocation metadata
+            if not isinstance(eff, dict) or not isinstance(eff.get("FunctionName"), str) or not eff["FunctionName"]:
+                raise ModelUnsupported("long-form invoke without FunctionName")
+            fn = eff["FunctionName"].rsplit(":", 1)[1]
+            eff = eff.get("Payload", {})
         if "TimeoutSecondsPath" in st:
             ts = select(raw, c, st["TimeoutSecondsPath"], self.flags)
             if isinstance(ts, bool) or not isinstance(ts, int):
@@ -814,6 +831,9 @@ class Interp(object):
         result = o["value"] if o["kind"] == "result" else json.loads(o["value"])
         if isinstance(result, dict) and (result.get("Error") or result.get("errorType")):
             self.flags.inband_task_error = True
+        if long_form:
+            result = {"ExecutedVersion": "$LATEST", "Payload": result,
+                      "SdkResponseMetadata": {"RequestId": ("__time__",)}, "StatusCode": 200}
         c2 = self.ctx(name, t, attempt)
         try:
             if "ResultSelector" in st:
